@@ -64,6 +64,26 @@ def run(ctx):
     for m in gbad[:3]:
         ctx.violation("gocorpus", "C20 fails on the real tool: %s\nreplay: bin/harness analyze -dir corpus/c20\n" % m)
 
+    # two-directional tie of the inference itself: the extracted transcription (model M10, coq/model/Infer.v) against the
+    # real inferContracts on the abstract SSA form of every candidate function of the standard library, of nilaway's own
+    # packages, of the corpora and of generated programs
+    from . import infer_suite as IS
+    import shutil
+    irng = random.Random(ctx.seed * 15485863 + 20)
+    gd = IS.gen_module(ctx, irng, 400 if ctx.tier == "quick" else 4000)
+    try:
+        targets = [(os.path.join(common.VERIF, "corpus", "c10"), ["std"]), (common.REPO, ["./..."]), (os.path.join(common.VERIF, "corpus", "c20"), []), (gd, [])]
+        ir = IS.correspond(targets)
+    finally:
+        shutil.rmtree(gd, ignore_errors=True)
+    ctx.obligation("inference correspondence suite ran", not ir["errors"] and len(ir["funcs"]) > 0)
+    for e in ir["errors"][:2]:
+        ctx.violation("infer-suite", e, found_input=False)
+    ctx.obligation("correspondence (two-directional): real inferContracts == extracted model infer on %d functions (standard library, nilaway, corpora, generated programs; %d with a nil comparison, %d with phis, up to %d blocks; the real tool infers %d contracts)" % (
+        len(ir["funcs"]), ir["with_branch"], ir["with_phi"], ir["maxblocks"], ir["inferred"]), not ir["mism"] and not ir["panics"] and not ir["nofuel"])
+    ctx.coverage.update({"inference_functions": len(ir["funcs"]), "inference_contracts": ir["inferred"]})
+    imism = ir["mism"]
+
     rng = random.Random(ctx.seed * 32452843 + 20)
     n = 400 if ctx.tier == "quick" else 6000
     batch = 400 if ctx.tier == "quick" else 1000
@@ -130,6 +150,11 @@ def run(ctx):
     for (c, o, m) in bad["unsound"][:3]:
         ctx.violation("unsound", "C20 fails on the real tool: %s\n%s" % (m, PF.describe(c, o)))
     if not ctx.violations:
+        for (f, m) in imism[:2]:
+            ctx.violation("infer-correspondence", "model M10 (coq/model/Infer.v) and the real inferContracts disagree (the model says %s): theorems about the inference no longer speak about the code; no run returning nil for a non-nil argument was found among the probes\n%s" % (
+                {"I": "inferred", "N": "not inferred"}.get(m, m), IS.describe(f)), found_input=False)
+        for f in (ir["panics"] + ir["nofuel"])[:1]:
+            ctx.violation("infer-run", "the real inference panicked / the model ran out of fuel on\n%s" % IS.describe(f), found_input=False)
         for (c, o, f) in bad["infer"][:3]:
             ctx.violation("inference", "the real tool infers a contract for F%d that the model's inference (the strongest sound intraprocedural one, C20_contract_true) rejects; no run returning nil for a non-nil argument was found among the probes\n%s" % (f, PF.describe(c, o)), found_input=False)
         for (c, o, m) in bad["corr"][:2]:
